@@ -13,24 +13,24 @@ ROUT = {0: 'FullMutual', 1: 'GenericInner', 2: 'GenericFullRemote', 3: 'MutualPa
 def run(ctx):
     q = ctx.quick()
     Q = []
-    nmax = 3 if q else 4
+    nmax = 4 if q else 8
     for real in ('double', 'float'):
-        defs = ['REALT=%s' % real, 'NMAXP=4']
+        defs = ['REALT=%s' % real, 'NMAXP=16']
         for r in (0, 2):
             for ns in range(0, nmax + 1):
                 for nt in range(0, nmax + 1):
                     if real == 'float' and (ns, nt) not in ((1, 1), (2, 1), (1, 2), (0, 2), (2, 0)): continue
                     Q.append(('%s.%s.s%d.t%d' % (ROUT[r], real, ns, nt), defs, r, ns, nt))
-        for nt in range(0, (4 if q else 5) + 1):
+        for nt in range(0, (6 if q else 12) + 1):
             if real == 'float' and nt not in (1, 2, 3): continue
             Q.append(('%s.%s.n%d' % (ROUT[1], real, nt), defs, 1, 0, nt))
         Q.append(('%s.%s' % (ROUT[3], real), defs, 3, 1, 1)); Q.append(('%s.%s' % (ROUT[4], real), defs, 4, 1, 1))
     if getattr(ctx, 'only', None): Q = [x for x in Q if ctx.only in x[0]]
-    ctx.bounds.update(dict(counts='sources 0..%d x targets 0..%d (in-leaf routine up to %d particles)' % (nmax, nmax, 4 if q else 5), types='double (all counts) and float (selected counts)',
+    ctx.bounds.update(dict(counts='sources 0..%d x targets 0..%d (in-leaf routine up to %d particles)' % (nmax, nmax, 6 if q else 12), types='double (all counts) and float (selected counts)',
                            symbolic='positions, charges, initial rhs contents: arbitrary reals with pairwise distinct positions',
                            outside='rounding (the statement says "to rounding": the proved law is what rounding is measured against); counts above the bound (loops are uniform in the count; stated, not proved); the Inastemp SIMD path (absent here)'))
     ctx.assumptions += ['idealised real arithmetic: fadd/fsub/fmul/fdiv are the real operations, fpext/fptrunc are the identity', 'sqrt(x) = the non-negative real s with s*s = x',
                         'all pairwise squared distances > 0 (coincident source/target is excluded by the property itself)', 'clang 14 -O1 IR with -ffp-contract=off']
-    e3.run_queries(ctx, Q, per_goal_timeout=(90 if q else 600))
+    e3.run_queries(ctx, Q, per_goal_timeout=(120 if q else 900))
     return ctx.finish('other', TEXT, 'one query per (routine, type, #sources, #targets); one solver goal per output component; a query is non-trivial when it has >= 1 particle',
                       exhaustive=True, extra_cov=dict(obligations=sum(x.get('goals', 0) for x in ctx.queries), discharged=sum(x.get('proved', 0) for x in ctx.queries)))
